@@ -7,7 +7,10 @@
 let nat (a : int) (b : int) = compare a b
 let big = 1 lsl 61      (* stands for math.MaxInt: only the sign of a comparison is ever used *)
 
-let cmp_of s : int -> int -> int =
+let rec cmp_of s : int -> int -> int =
+  (* q<base>: the harness wraps <base> into a comparator that also READS the map it belongs to
+     (round 5); as a comparison it is <base> *)
+  if String.length s > 1 && s.[0] = 'q' then cmp_of (String.sub s 1 (String.length s - 1)) else
   let modk () =
     let k = int_of_string (String.sub s 1 (String.length s - 1)) in
     let k = if k <= 0 then 1 else k in
@@ -73,6 +76,50 @@ let str_codec = { parse = (fun s -> if s = "~" then "" else unesc_token s); show
                   raw = (fun s -> s); zero = "" }
 
 let split_on c s = if s = "" then [] else String.split_on_char c s
+
+(* ---- round 5: typed K lines (harness typed.go).  Keys and values are integer codes; per key type the
+   RANK of every code in cmp.Compare's total order (NaN first and equal to every NaN, -0 equal to +0:
+   equal ranks = equivalent keys) and its %v text; per value type its %v text. *)
+let f64_raw = [| "NaN"; "NaN"; "-Inf"; "-1.7976931348623157e+308"; "-2.5"; "-1"; "-5e-324"; "-0"; "0"; "5e-324";
+  "2.2250738585072014e-308"; "0.1"; "0.3"; "0.30000000000000004"; "1"; "1.0000000000000002"; "2.5";
+  "9.007199254740992e+15"; "9.007199254740994e+15"; "1e+21"; "1.7976931348623157e+308"; "+Inf" |]
+let f32_raw = [| "NaN"; "NaN"; "-Inf"; "-3.4028235e+38"; "-2.5"; "-1"; "-1e-45"; "-0"; "0"; "1e-45";
+  "1.1754944e-38"; "0.1"; "0.3"; "0.30000004"; "1"; "1.0000001"; "2.5";
+  "1.6777216e+07"; "1.6777218e+07"; "1e+21"; "3.4028235e+38"; "+Inf" |]
+(* codes 0,1 the two NaNs; 7,8 the two zeros *)
+let float_rank c = if c <= 1 then 0 else if c <= 7 then c - 1 else c - 2
+let i64_raw = [| "-9223372036854775808"; "-9223372036854775807"; "-9007199254740993"; "-2"; "-1"; "0"; "1"; "2";
+  "9007199254740993"; "9223372036854775806"; "9223372036854775807" |]
+let u64_raw = [| "0"; "1"; "2"; "2147483648"; "4294967296"; "9223372036854775807"; "9223372036854775808";
+  "9223372036854775809"; "18446744073709551614"; "18446744073709551615" |]
+let ns_raw = [| ""; "\000"; " "; "A"; "Z"; "a"; "a\000"; "aa"; "ab"; "b"; "z"; "\127"; "\128"; "\195\169"; "\255" |]
+let table_codec (raw : string array) zero =
+  { parse = (fun s -> let c = int_of_string s in if c < 0 || c >= Array.length raw then failwith "bad key code" else c);
+    show = string_of_int; raw = (fun c -> raw.(c)); zero }
+let range_codec lo hi =
+  { parse = (fun s -> let c = int_of_string s in if c < lo || c > hi then failwith "bad key code" else c);
+    show = string_of_int; raw = string_of_int; zero = 0 }
+(* (key codec, rank, value codec) *)
+let typed ty : int codec * (int -> int) * int codec =
+  let ident c = c in
+  let ints = int_codec in
+  match ty with
+  | "f64" | "nf" -> (table_codec f64_raw 8, float_rank, ints)
+  | "f32" -> (table_codec f32_raw 8, float_rank, ints)
+  | "i8" -> (range_codec (-128) 127, ident,
+             { parse = (fun s -> if int_of_string s <> 0 then 1 else 0); show = string_of_int;
+               raw = (fun v -> if v <> 0 then "true" else "false"); zero = 0 })
+  | "u8" -> (range_codec 0 255, ident,
+             { ints with raw = (fun v -> if v = 0 then "[0 0 0 0 0]" else Printf.sprintf "[%d %d %d %d %d]" v (v + 1) (v + 2) (v + 3) (v + 4)) })
+  | "i64" -> (table_codec i64_raw 5, ident, ints)
+  | "u64" -> (table_codec u64_raw 0, ident, { ints with raw = (fun _ -> "?") })     (* pointer values: no String op *)
+  | "ns" -> (table_codec ns_raw 0, ident, { ints with raw = (fun v -> if v = 0 then "" else "v" ^ string_of_int v) })
+  | _ -> failwith "bad key type"
+let typed_cmp rank cs : int -> int -> int =
+  match cs with
+  | "n" | "c" | "w" -> (fun a b -> compare (rank a) (rank b))
+  | "r" -> (fun a b -> compare (rank b) (rank a))
+  | _ -> failwith "bad constructor"
 
 exception Fail of string
 exception Stop_case        (* the documented panic of Set on a zero Map: the case ends here *)
@@ -380,6 +427,9 @@ let eval inp =
     eval_gen int_codec int_codec cf kind (match rest with [o] -> split_on ';' o | _ -> []) (Some (int_macro (cs = "n") cf))
   | "T" :: cs :: kind :: rest ->
     eval_gen str_codec str_codec (str_cmp_of cs) kind (match rest with [o] -> split_on ';' o | _ -> []) None
+  | "K" :: ty :: cs :: kind :: rest ->
+    let (kc, rank, vc) = typed ty in
+    eval_gen kc vc (typed_cmp rank cs) kind (match rest with [o] -> split_on ';' o | _ -> []) None
   | _ -> "?"
 
 (* ------------------------------------------------------------------ the property on the implementation's output *)
@@ -630,6 +680,10 @@ let spec prop inp out =
     spec_gen int_codec int_codec cf kind (match rest with [o] -> split_on ';' o | _ -> []) out (Some (int_smacro (cs = "n") cf { sup = false; card = 0; lenient = false }))
   | "T" :: cs :: kind :: rest ->
     spec_gen str_codec str_codec (str_cmp_of cs) kind (match rest with [o] -> split_on ';' o | _ -> []) out None
+  | "K" :: ty :: cs :: kind :: rest ->
+    (* the reference order of every constructor of a natural-order map is cmp.Compare's (reversed for r) *)
+    let (kc, rank, vc) = typed ty in
+    spec_gen kc vc (typed_cmp rank cs) kind (match rest with [o] -> split_on ';' o | _ -> []) out None
   | _ -> None
 
 let () = run_main ~eval ~spec
